@@ -221,36 +221,25 @@ func HarnessC17Escapejs() {
 	verifObserve("x", x)
 	out := c17Apply("escapejs", x)
 	verifObserve("out", out)
-	// alphabet + decoding (for every input, valid UTF-8 or not)
-	var dec []rune
+	// alphabet (for every input, valid UTF-8 or not): letters, space, '/', and \u followed by >= 4 hex digits
 	for i := 0; i < len(out); {
 		c := out[i]
 		if c >= 'a' && c <= 'z' || c >= 'A' && c <= 'Z' || c == ' ' || c == '/' {
-			dec = append(dec, rune(c))
 			i++
 			continue
 		}
 		verifAssert(c == '\\', "escapejs output contains a byte outside letters, space, / and \\uXXXX")
 		verifAssert(i+1 < len(out) && out[i+1] == 'u', "escapejs output contains a backslash that does not start a \\u escape")
-		v, k := 0, 0
-		for i+2+k < len(out) {
-			d, ok := c17Hexval(out[i+2+k])
+		k := 0
+		for i+2+k < len(out) && k < 4 {
+			_, ok := c17Hexval(out[i+2+k])
 			if !ok {
 				break
 			}
-			// a \u escape has 4 digits, or 5/6 for runes beyond the BMP (Go's %04X)
-			if k >= 4 && v<<4|d > 0x10FFFF {
-				break
-			}
-			if k >= 4 && v < 0x1000 {
-				break
-			}
-			v = v<<4 | d
 			k++
 		}
-		verifAssert(k >= 4, "escapejs: \\u escape with fewer than 4 hex digits")
-		dec = append(dec, rune(v))
-		i += 2 + k
+		verifAssert(k == 4, "escapejs: \\u escape with fewer than 4 hex digits")
+		i += 6
 	}
 	if !valid {
 		return
@@ -269,10 +258,9 @@ func HarnessC17Escapejs() {
 			want = append(want, rs[i])
 		}
 	}
-	verifAssert(len(dec) == len(want), "escapejs output does not decode to the input's characters (count)")
-	for i := range want {
-		verifAssert(dec[i] == want[i], "escapejs output does not decode to the input's characters")
-	}
+	// decoding is existential: "\u18AAB" reads as U+18AA followed by 'B' (4 digits) - Go prints runes
+	// beyond the BMP with 5 or 6 digits, so a longer reading is accepted as well when it matches
+	verifAssert(c17JSMatch(out, 0, want, 0), "escapejs output does not decode to the input's characters")
 	verifAssert(c17Tpl("escapejs", x) == out, "template syntax and ApplyFilter disagree (escapejs)")
 }
 
@@ -373,4 +361,30 @@ func HarnessC17Removetags() {
 		i++
 	}
 	verifAssert(out == c17TrimSpace(string(want)), "removetags must remove exactly the named tags (<b>, </b>, <b/>, </b/>) and nothing else")
+}
+
+// c17JSMatch: does out[i:] decode to want[j:] under SOME reading of its \u escapes (4, 5 or 6 hex digits)?
+func c17JSMatch(out string, i int, want []rune, j int) bool {
+	if i == len(out) {
+		return j == len(want)
+	}
+	if j >= len(want) {
+		return false
+	}
+	c := out[i]
+	if c != '\\' {
+		return rune(c) == want[j] && c17JSMatch(out, i+1, want, j+1)
+	}
+	v := 0
+	for k := 0; k < 6 && i+2+k < len(out); k++ {
+		d, ok := c17Hexval(out[i+2+k])
+		if !ok {
+			break
+		}
+		v = v<<4 | d
+		if k >= 3 && rune(v) == want[j] && c17JSMatch(out, i+3+k, want, j+1) {
+			return true
+		}
+	}
+	return false
 }
